@@ -52,6 +52,14 @@ RULES = {
                                 {"s": 0, "op": "solution", "e": "z", "v": "y ^ z", "extra": []}, {"s": 0, "op": "branch"},
                                 {"s": 1, "op": "solution", "e": "x + ZeroExt(1, y)", "v": "If(b, x, ZeroExt(1, y))", "extra": ["b"]},
                                 {"s": 1, "op": "solution", "e": "x & 3", "v": "ZeroExt(1, z)", "extra": []}],
+    # two children are each enumerated completely, then a weak constraint (over a third, fresh variable too) connects them: it
+    # falsifies no model anybody cached and cannot be simplified away; whatever the combined child inherits must still be complete
+    "exhausted-children-connected": [A("ULT(x, 3)"), A("SLT(y, 0)"), E("x", 20), E("y", 20), A("x + ZeroExt(1, y) != ZeroExt(1, z)"), E("x", 20),
+                                     E("y", 20), {"s": 0, "op": "satisfiable", "extra": ["x == 0"]},
+                                     {"s": 0, "op": "max", "e": "y", "signed": False, "extra": []}],
+    "exhausted-children-connected-on-branch": [A("ULE(x, 11)"), A("UGE(x, 8)"), A("UGE(z, 1)"), E("z", 20), E("x", 20),
+                                               {"s": 0, "op": "min", "e": "x", "signed": False, "extra": []}, {"s": 0, "op": "branch"},
+                                               A("x ^ ZeroExt(1, z) != 0", 1), E("z", 20, 1), E("x", 20, 1), E("x", 20, 0)],
 }
 
 
@@ -70,6 +78,11 @@ def jobs_for(ctx, mult=1):
     for i in range(ctx.pick(60, 300) * mult):
         jobs.append({"cls": "SolverComposite", "cfg": {"track": i % 5 == 0, "reuse": i % 3 == 0}, "len": ctx.pick(4, 12),
                      "gen": {"shape": "unchecked-simplify", "symv": 0.35, "calpha": L.CONSTRAINTS + [c for v in L.OPAQUE.values() for c in v[:2]]}})
+    # independent children each enumerated completely, then connected by a weak constraint (falsifies no cached model); random tail
+    weak = [c for v in L.WEAK.values() for c in v] + L.WEAK3
+    for i in range(ctx.pick(50, 300) * mult):
+        jobs.append({"cls": "SolverComposite", "cfg": {"track": i % 5 == 0, "reuse": i % 3 == 0}, "len": ctx.pick(4, 12),
+                     "gen": {"shape": "exhaust-then-connect", "symv": 0.35, "calpha": L.CONSTRAINTS + weak}})
     return jobs
 
 
@@ -91,10 +104,13 @@ def run(ctx):
     ]
     ctx.cov["rule"] = ("SolverComposite: rule-directed histories (connecting children, transitive closure, unsat child + unrelated query, copy-on-write "
                        "after branch, literal false, expansion then simplify, merge conditions over a common child, an unchecked child falling apart on "
-                       "simplify, solution() with a symbolic value of another child) x3 configurations; random histories "
+                       "simplify, solution() with a symbolic value of another child, completely enumerated children connected by a weak "
+                       "constraint) x3 configurations; random histories "
                        "(half with split/combine/merge, relative solver addressing; a third of the solution() calls with a symbolic value) of "
                        "length <= 30 quick / 120 thorough; directed openings (pin, tie, solver-only constraints on the tied variable, no question "
-                       "asked; then simplify / min / max / eval(n>1), possibly on a branch) with a random tail; SolverCompositeChild: random "
+                       "asked; then simplify / min / max / eval(n>1), possibly on a branch; and: range constraints per variable, each variable "
+                       "enumerated completely, one weak connecting constraint - a disequality, often over a fresh third variable -, everything "
+                       "asked again) with a random tail; SolverCompositeChild: random "
                        "histories with full trace correspondence; _split_constraints: random constraint lists, model vs real; non-trivial = >= 3 calls")
     tie_ok = True
     try:
